@@ -401,7 +401,7 @@ func XTwoGoPackages() *spec.Spec {
 			spec.RPC("EchoFlat", "FlatShape", "FlatShape", "POST", "/flat"), spec.RPC("EchoNested", "NestedShape", "NestedShape", "POST", "/nested"),
 			spec.RPC("GetQuote", "Req", c+"Quote", "POST", "/quote"))}}
 	s2 := &spec.Spec{Name: "x_twopkg", Files: []*spec.File{common, api}}
-	return withCell(s2, "ext/unit=two_go_packages", "extended", "valid", "genonly", "multifile")
+	return withCell(s2, "ext/unit=two_go_packages", "extended", "valid", "codec", "multifile")
 }
 
 // XUnwrapCycles: unwrap wrappers that reach themselves - a root map unwrap whose values are the wrapper itself (a dictionary of
